@@ -11,7 +11,7 @@ FEATURES = [{'rec'}, {'gen'}, {'gen', 'rec'}, {'co'}, {'gen', 'co', 'rec', 'mutu
 
 
 def run(tier, seed):
-    return e1common.run_property(PROP, MODULE, THEOREMS, tier, seed, 160, 6000, FEATURES, 'hits')
+    return e1common.run_property(PROP, MODULE, THEOREMS, tier, seed, 160, 30000, FEATURES, 'hits')
 
 
 def replay(path):
